@@ -56,7 +56,7 @@ MUJ == \E t \in KnownRoots, jr \in KnownRoots, fr \in KnownRoots, je \in 0..MaxE
             IN /\ just' = j /\ fin' = f /\ bal' = b
                /\ pin' = IF fin # f THEN <<>> ELSE pin
                /\ nodes' = Remove(P2)
-               /\ detached' = (detached \ P2) \cup DetachedBy(P2, TRUE, f.root)
+               /\ detached' = (detached \ P2) \cup DetachedBy(P2, TRUE, PruneAnchor(f))
                /\ UNCHANGED votes
                /\ pje' = je /\ pfe' = fe /\ trk' = dt[2] /\ chg' = FALSE
                \* ApplyScoreChanges evaluates viability with the NEW epochs
